@@ -1,7 +1,7 @@
 //! gmq-harness: drives the REAL gm-quic code with generated operation sequences and writes a
 //! transcript (`<op> => <observation>` per line) that the Lean model driver replays.
 mod common;
-mod c08;
+mod registry;
 
 use common::Opts;
 
@@ -40,10 +40,10 @@ fn main() {
         i += 2;
     }
     common::silence_panics();
-    match o.prop.as_str() {
-        "C08" => c08::run(&o),
-        p => {
-            eprintln!("unknown property {p}");
+    match registry::all().into_iter().find(|(n, _)| *n == o.prop) {
+        Some((_, f)) => f(&o),
+        None => {
+            eprintln!("unknown run {}", o.prop);
             std::process::exit(2);
         }
     }
